@@ -9,8 +9,8 @@ open Monero Monero.TreeHash
 Model (`MoneroModel/Model/TreeHash.lean`): `treeHashCnt` (the doubling loop of `tree_hash_cnt` on a 64-bit `usize`,
 both asserts), `treeHash` (`tree_hash`: a mutable array, the two in-place loops
 `hashes[j] = hash_concat(hashes[i], hashes[i+1])`, `assert_eq!(i, count)`, the halving loop, the final combine; every
-index access checked, `none` = panic), `txRoot`, `blobOf` / `serializeHashable` (`Block::serialize_header_and_root`),
-`blockIdOf` / `blockId` (`Block::id` with the block-202612 substitution).
+index access checked, `none` = panic), `txRoot`, `blobOf` / `serializeHeaderAndRoot` (the private `Block::serialize_header_and_root`), `serializeHashable` (the public wrapper),
+`blockIdOf` / `blockId` (`Block::id`, which calls the private function, with the block-202612 substitution).
 Spec (`MoneroModel/Spec/TreeHash.lean`): `treeSpec` — the recursive CryptoNote definition (keep `2·cnt − n` leading
 leaves, pair the rest, root of the perfect binary tree defined top-down by halves), `powBlob`, `blockIdSpec`.
 Every theorem holds for an arbitrary hash function `H` (Keccak-256 in the code). -/
@@ -60,7 +60,12 @@ theorem C06_tree_small (H : Bytes → Bytes) (root e : Bytes) :
     Spec.TreeHash.treeSpec H [root] = root ∧ Spec.TreeHash.treeSpec H [root, e] = H (root ++ e) :=
   ⟨rfl, rfl, rfl, rfl⟩
 
-/-- `Block::tx_root` is the CryptoNote tree hash of the miner-transaction hash followed by the listed hashes -/
+/-- `Block::tx_root` is the CryptoNote tree hash of the miner-transaction hash followed by the listed hashes.
+NOTE: through `txRoot := treeHash` this is `C06_tree_eq_spec` again (same proof term). That the MINER-TRANSACTION identifier comes
+FIRST and the listed hashes follow in their order is the argument order of the model definition `txRoot` (block.rs:103-108,
+`tree_hash(miner_tx.hash(), &tx_hashes)`) and the `mid :: blk.hashes` of `C06_every_block` / `C06_parsed_block`; that the CODE passes the
+arguments in this order is checked by the harness (families `miner_hash_listed`, swap / reverse neighbours), not by a theorem. The
+example after `C06_exception` shows that the order is visible in the value (the tree hash is not symmetric). -/
 theorem C06_root (H : Bytes → Bytes) (minerTxHash : Bytes) (txHashes : List Bytes)
     (hmax : txHashes.length + 1 ≤ 2^28) :
     txRoot H minerTxHash txHashes = some (Spec.TreeHash.treeSpec H (minerTxHash :: txHashes)) :=
@@ -74,7 +79,7 @@ theorem C06_blob (H : Bytes → Bytes) (hdr minerTxHash : Bytes) (txHashes : Lis
       some (Spec.TreeHash.powBlob hdr (Spec.TreeHash.treeSpec H (minerTxHash :: txHashes)) txHashes.length) := by
   constructor
   · intro root n; unfold blobOf; rw [encVarint_eq_leb128]
-  · unfold serializeHashable
+  · unfold serializeHashable serializeHeaderAndRoot
     rw [C06_root H minerTxHash txHashes hmax]
     simp only [blobOf, Spec.TreeHash.powBlob, encVarint_eq_leb128]
 
@@ -89,8 +94,10 @@ theorem C06_id (H : Bytes → Bytes) (correct existing : Bytes) :
   constructor
   · intro blob; simp only [blockIdOf, encVarint_eq_leb128]
   · intro hdr minerTxHash txHashes hmax
+    have hb := (C06_blob H hdr minerTxHash txHashes hmax).2
+    unfold serializeHashable at hb
     unfold blockId
-    rw [(C06_blob H hdr minerTxHash txHashes hmax).2]
+    rw [hb]
     simp only [blockIdOf, encVarint_eq_leb128, Spec.TreeHash.blockSpec, Spec.TreeHash.blockIdSpec]
 
 /-- the block-202612 substitution: the result is `existing` when the computed hash equals `correct`, and the
@@ -107,15 +114,40 @@ theorem C06_exception (H : Bytes → Bytes) (correct existing blob : Bytes) :
   · simp [h, hc]
   · simp only [h, hc, if_false, false_or, ne_eq, not_false_eq_true, true_implies, false_implies, true_and]
 
+/- a SHAPE-REVEALING "hash" for the examples (`bracketH`, Proofs/TreeHash3.lean): `P b = 40 :: b ++ [41]` puts its argument in brackets, so the value of a tree hash
+under `P` spells out which leaves were kept, which were paired and how the nodes were combined (a constant-like `H` such as
+`b.take 1` would give `[1]` for every tree with leftmost leaf `[1]`) -/
+local notation "P" => Monero.TreeHash.bracketH
+
 /-- the hypotheses are satisfiable: a hash function, three leaves (inside the range `3 ≤ n ≤ 2^28`) -/
 example : ∃ (H : Bytes → Bytes) (root : Bytes) (extra : List Bytes),
     extra.length + 1 ≤ 2^28 ∧ 3 ≤ extra.length + 1 ∧
     treeHash H root extra = some (Spec.TreeHash.treeSpec H (root :: extra)) :=
-  ⟨fun b => b.take 1, [1], [[2], [3]], by decide, by decide,
-    C06_tree_eq_spec _ _ _ (by decide)⟩
+  ⟨P, [1], [[2], [3]], by decide, by decide, C06_tree_eq_spec _ _ _ (by decide)⟩
 
-/-- … and on that instance the value is the expected one: keep `h₀`, pair `h₁,h₂`, combine -/
-example : Spec.TreeHash.treeSpec (fun b => b.take 1) [[1], [2], [3]] = [1] := by decide
+/-- … and on that instance the value shows the shape: 3 leaves, `cnt = 2`, keep `h₀`, pair `h₁,h₂`, combine: `(1 (2 3))` -/
+example : Spec.TreeHash.treeSpec P [[1], [2], [3]] = [40, 1, 40, 2, 3, 41, 41] ∧
+    treeHash P [1] [[2], [3]] = some [40, 1, 40, 2, 3, 41, 41] := by decide
+
+/-- 5 leaves: `m = 2`, `cnt = 4`, `keep = 3`, one pair: `((1 2) (3 (4 5)))`, by the reference definition and by the model of the loops -/
+example : Spec.TreeHash.levelBelow 5 = 2 ∧ 2 * 2 ^ 2 - 5 = 3 ∧
+    Spec.TreeHash.treeSpec P [[1], [2], [3], [4], [5]] = [40, 40, 1, 2, 41, 40, 3, 40, 4, 5, 41, 41, 41] ∧
+    treeHash P [1] [[2], [3], [4], [5]] = some [40, 40, 1, 2, 41, 40, 3, 40, 4, 5, 41, 41, 41] := by decide
+
+/-- 6 and 8 leaves (`keep = 2` and `keep = 0`): `((1 2) ((3 4) (5 6)))` and the perfect tree `(((1 2) (3 4)) ((5 6) (7 8)))` -/
+example : treeHash P [1] [[2], [3], [4], [5], [6]] = some [40, 40, 1, 2, 41, 40, 40, 3, 4, 41, 40, 5, 6, 41, 41, 41] ∧
+    treeHash P [1] [[2], [3], [4], [5], [6], [7], [8]] =
+      some [40, 40, 40, 1, 2, 41, 40, 3, 4, 41, 41, 40, 40, 5, 6, 41, 40, 7, 8, 41, 41, 41] := by decide
+
+/-- the order of the leaves is visible in the value: the miner-transaction identifier first is not the same as last, and
+exchanging two listed hashes changes the root -/
+example : txRoot P [1] [[2], [3]] ≠ txRoot P [3] [[1], [2]] ∧ txRoot P [1] [[2], [3]] ≠ txRoot P [1] [[3], [2]] ∧
+    txRoot P [1] [[2], [3]] ≠ txRoot P [2] [[1], [3]] := by decide
+
+/-- leaves that are all-zero hashes or equal to their neighbours are ordinary leaves: no leaf is dropped or merged
+(the value under `P` has all five of them, in place) -/
+example : treeHash P [0] [[0], [0], [0], [0]] = some [40, 40, 0, 0, 41, 40, 0, 40, 0, 0, 41, 41, 41] ∧
+    treeHash P [1] [[0], [3], [3], [0]] = some [40, 40, 1, 0, 41, 40, 3, 40, 3, 0, 41, 41, 41] := by decide
 
 /-! ## The constants of the current source, tightness of the `2^28` bound, well-formedness of the reference definition,
 and the statement for parsed blocks (added after the audit of C06) -/
@@ -175,7 +207,7 @@ theorem C06_block_panics (H : Bytes → Bytes) (c e hdr minerTxHash : Bytes) (tx
     txRoot H minerTxHash txHashes = none ∧ serializeHashable H hdr minerTxHash txHashes = none ∧
     blockId H c e hdr minerTxHash txHashes = none := by
   have hr : txRoot H minerTxHash txHashes = none := C06_tree_panics H minerTxHash txHashes h
-  have hs : serializeHashable H hdr minerTxHash txHashes = none := by unfold serializeHashable; rw [hr]
+  have hs : serializeHeaderAndRoot H hdr minerTxHash txHashes = none := by unfold serializeHeaderAndRoot; rw [hr]
   exact ⟨hr, hs, by unfold blockId; rw [hs]⟩
 
 /-- the level used by the reference definition, for EVERY `n ≥ 2` (no upper bound; `C06_cnt` says that the code's
@@ -212,33 +244,90 @@ theorem C06_spec_wf (H : Bytes → Bytes) (hs : List Bytes) (h : 3 ≤ hs.length
   · have := hb.1; omega
   · rw [perfect_default_irrelevant H d _ _ h6, treeSpec_many H hs h]
 
-/-- in `perfect` over exactly `2^(m+1)` nodes both halves have exactly `2^m` nodes, and over `2^0` nodes the single node is the
-root: the recursion of the reference definition never meets an empty or a ragged list -/
+/-- THE RECURSION OF `perfect` IS WELL-FORMED. Over exactly `2^0` nodes the single node is the root; over exactly `2^(m+1)` nodes
+`perfect` IS `H(root of the first 2^m nodes ‖ root of the last 2^m nodes)`, both halves have exactly `2^m` nodes (so the recursion never
+meets an empty or a ragged list), and the value does not depend on the default used for the empty list (`perfectD` with any `d`) -/
 theorem C06_spec_perfect_wf (H : Bytes → Bytes) :
     (∀ (l : List Bytes), l.length = 2^0 → ∃ x, l = [x] ∧ Spec.TreeHash.perfect H 0 l = x) ∧
     (∀ (m : Nat) (l : List Bytes), l.length = 2^(m+1) →
-      (l.take (2^m)).length = 2^m ∧ (l.drop (2^m)).length = 2^m ∧ l.take (2^m) ++ l.drop (2^m) = l) := by
+      Spec.TreeHash.perfect H (m+1) l =
+        H (Spec.TreeHash.perfect H m (l.take (2^m)) ++ Spec.TreeHash.perfect H m (l.drop (2^m))) ∧
+      (l.take (2^m)).length = 2^m ∧ (l.drop (2^m)).length = 2^m ∧ l.take (2^m) ++ l.drop (2^m) = l ∧
+      ∀ d, perfectD H d (m+1) l = Spec.TreeHash.perfect H (m+1) l) := by
   constructor
   · intro l hl
     match l, hl with
     | [a], _ => exact ⟨a, rfl, rfl⟩
   · intro m l hl
     have hpow : 2 ^ (m + 1) = 2 * 2 ^ m := by rw [Nat.pow_succ]; omega
-    exact ⟨by rw [List.length_take, hl, hpow]; omega, by rw [List.length_drop, hl, hpow]; omega, List.take_append_drop _ _⟩
+    exact ⟨rfl, by rw [List.length_take, hl, hpow]; omega, by rw [List.length_drop, hl, hpow]; omega,
+      List.take_append_drop _ _, fun d => perfect_default_irrelevant H d (m+1) l hl⟩
 
 /-- the serialised header is the by-the-book layout
-`varint(major) ‖ varint(minor) ‖ varint(timestamp) ‖ prev_id ‖ nonce (4 bytes, little endian)` of the header's fields -/
+`varint(major) ‖ varint(minor) ‖ varint(timestamp) ‖ prev_id ‖ nonce (4 bytes, little endian)` of the header's fields.
+RANGE: the fields of `Spec.HeaderD` / of the model's `Header` are unbounded `Nat`s and `prevId` is any byte string; a `BlockHeader` of the
+code has `major, minor, timestamp < 2^64`, `nonce < 2^32` and a 32-byte `prev_id` (`Spec.WFHeaderD`). The equation also holds outside that
+range, where it says nothing about the code (a nonce `≥ 2^32` is reduced mod `2^32` by `encUintLE 4` and by `Spec.u32le` alike, a field
+`≥ 2^64` gives a LEB128 longer than 10 bytes on both sides): the range is not part of the claim, only values in range correspond to
+header values of the library. The example below evaluates both sides on an in-range header. -/
 theorem C06_header_layout (d : Spec.HeaderD) : encHeader (buildHeader d) = Spec.specHeader d :=
   encHeader_eq_specHeader d
 
-/-- FOR EVERY PARSED BLOCK (`block` = the model of `Block::consensus_decode`, tied to the code by C01–C03), with NO
-size hypothesis (the decoder's allocation cap keeps the number of listed hashes below `2^28`), with the miner-transaction
-identifier computed by the model of `Transaction::hash` (C05) and the constants of the current source:
+/-- in range (`Spec.WFHeaderD`), on concrete values: a two-byte varint field (`300 ↦ ac 02`), nonce `0x04030201 ↦ 01 02 03 04`,
+`prev_id` verbatim between them -/
+example : Spec.WFHeaderD ⟨300, 1, 0, List.replicate 32 7, 0x04030201⟩ ∧
+    encHeader (buildHeader ⟨300, 1, 0, List.replicate 32 7, 0x04030201⟩) =
+      [0xac, 0x02, 1, 0] ++ List.replicate 32 7 ++ [1, 2, 3, 4] ∧
+    Spec.specHeader ⟨300, 1, 0, List.replicate 32 7, 0x04030201⟩ = [0xac, 0x02, 1, 0] ++ List.replicate 32 7 ++ [1, 2, 3, 4] := by
+  refine ⟨?_, by decide +kernel, by decide +kernel⟩
+  unfold Spec.WFHeaderD Spec.u64 Spec.is32
+  decide
+
+/-- FOR EVERY BLOCK VALUE of the model (`Block`: a header, a miner transaction, a list of listed hashes — every value, parsed or
+assembled in memory; the model's fields are unbounded, so the values of the Rust type `Block` are among them), TOTAL in the number of
+listed hashes, with the miner-transaction identifier computed by the model of `Transaction::hash` (C05) and the constants of the
+current source:
+* the serialised header is the by-the-book layout of the header's FIELDS (`prev_id` verbatim, whatever its value),
+* `tx_root` is the CryptoNote tree hash of the miner-transaction identifier followed by the listed hashes,
+* `serialize_hashable` is `that header ‖ root ‖ LEB128(n + 1)`,
+* `id` is `H(LEB128(|blob|) ‖ blob)`, except that the value computed for block 202612 is replaced by the historical one,
+all three exactly when `n + 1 ≤ 2^28`; above that all three panic (the second assert of `tree_hash_cnt`). -/
+theorem C06_every_block (H : Bytes → Bytes) (blk : Block) :
+    let hdr := Spec.specHeader ⟨blk.hdr.major, blk.hdr.minor, blk.hdr.timestamp, blk.hdr.prev, blk.hdr.nonce⟩
+    let mid := txHash H blk.miner
+    let root := Spec.TreeHash.treeSpec H (mid :: blk.hashes)
+    let blob := hdr ++ root ++ Spec.leb128 (blk.hashes.length + 1)
+    let hash := H (Spec.leb128 blob.length ++ blob)
+    encHeader blk.hdr = hdr ∧
+    txRoot H mid blk.hashes = (if blk.hashes.length + 1 ≤ 2^28 then some root else none) ∧
+    serializeHashable H (encHeader blk.hdr) mid blk.hashes = (if blk.hashes.length + 1 ≤ 2^28 then some blob else none) ∧
+    blockId H Gen.correctId202612 Gen.existingId202612 (encHeader blk.hdr) mid blk.hashes =
+      (if blk.hashes.length + 1 ≤ 2^28 then
+        some (if hash = Spec.TreeHash.computedId202612 then Spec.TreeHash.historicalId202612 else hash) else none) := by
+  intro hdr mid root blob hash
+  have he : encHeader blk.hdr = hdr :=
+    encHeader_eq_specHeader ⟨blk.hdr.major, blk.hdr.minor, blk.hdr.timestamp, blk.hdr.prev, blk.hdr.nonce⟩
+  refine ⟨he, ?_⟩
+  rw [he]
+  by_cases hmax : blk.hashes.length + 1 ≤ 2^28
+  · rw [if_pos hmax, if_pos hmax, if_pos hmax]
+    refine ⟨C06_root H mid blk.hashes hmax, ?_, ?_⟩
+    · rw [(C06_blob H hdr mid blk.hashes hmax).2]; rfl
+    · rw [C06_id_gen H hdr mid blk.hashes hmax]; rfl
+  · rw [if_neg hmax, if_neg hmax, if_neg hmax]
+    exact C06_block_panics H _ _ hdr mid blk.hashes (by omega)
+
+/-- FOR EVERY PARSED BLOCK (`block` = the model of `Block::consensus_decode`, tied to the code by C01–C03), with NO size hypothesis
+(the decoder's allocation cap keeps the number of listed hashes below `2^28`), with the miner-transaction identifier computed by the
+model of `Transaction::hash` (C05) and the constants of the current source:
 * `tx_root` is the CryptoNote tree hash of the miner-transaction identifier followed by the listed hashes,
 * `serialize_hashable` is `serialised header ‖ root ‖ LEB128(n + 1)`,
-* `id` is `H(LEB128(|blob|) ‖ blob)` except that the identifier computed for block 202612 is replaced by the historical one,
+* `id` is `H(LEB128(|blob|) ‖ blob)` except that the identifier computed for block 202612 is replaced by the historical one
+  (equivalently `(Spec.TreeHash.blockSpec H hdr mid blk.hashes).2.2`, the value the driver's spec side prints: `C06_id_gen`),
 * none of them panics,
-* and the serialised header is literally the leading bytes of the block. -/
+* the serialised header is the by-the-book layout of the parsed header's fields,
+* and it is literally the leading bytes of the block.
+This quantifies over the OUTPUTS OF THE DECODER only; for an arbitrary in-memory value see `C06_every_block`. -/
 theorem C06_parsed_block (H : Bytes → Bytes) (b r : Bytes) (blk : Block) (h : block b = some (blk, r)) :
     let hdr := encHeader blk.hdr
     let mid := txHash H blk.miner
@@ -249,53 +338,84 @@ theorem C06_parsed_block (H : Bytes → Bytes) (b r : Bytes) (blk : Block) (h : 
     serializeHashable H hdr mid blk.hashes = some blob ∧
     blockId H Gen.correctId202612 Gen.existingId202612 hdr mid blk.hashes =
       some (if hash = Spec.TreeHash.computedId202612 then Spec.TreeHash.historicalId202612 else hash) ∧
-    blockId H Gen.correctId202612 Gen.existingId202612 hdr mid blk.hashes =
-      some (Spec.TreeHash.blockSpec H hdr mid blk.hashes).2.2 ∧
+    hdr = Spec.specHeader ⟨blk.hdr.major, blk.hdr.minor, blk.hdr.timestamp, blk.hdr.prev, blk.hdr.nonce⟩ ∧
     (∃ rest, b = hdr ++ rest) := by
   intro hdr mid root blob hash
   have hmax := parsed_block_count b blk r h
-  have hid := C06_id_gen H hdr mid blk.hashes hmax
-  refine ⟨C06_root H mid blk.hashes hmax, ?_, ?_, hid, parsed_block_header_prefix b blk r h⟩
-  · rw [(C06_blob H hdr mid blk.hashes hmax).2]; rfl
-  · rw [hid]; rfl
+  obtain ⟨he, hr, hs, hi⟩ := C06_every_block H blk
+  rw [if_pos hmax] at hr hs hi
+  rw [← he] at hs hi
+  exact ⟨hr, hs, hi, he, parsed_block_header_prefix b blk r h⟩
 
-/-- the same for a block given by a DESCRIPTION of its fields (`Spec.BlockD`: header fields, miner transaction, hashes), so that
-the header layout appears in the statement: the blob starts with `Spec.specHeader` of the header's fields -/
-theorem C06_described_block (H : Bytes → Bytes) (d : Spec.BlockD) (hmax : d.txHashes.length + 1 ≤ 2^28) :
+/-- the same for a block given by a DESCRIPTION of its fields (`Spec.BlockD`: header fields, miner transaction, hashes), so that the
+header layout appears in the statement (the blob starts with `Spec.specHeader` of the header's fields). TOTAL: no size hypothesis —
+with at most `2^28 − 1` listed hashes the blob and the identifier are the specified ones, above that both methods panic. (The range remark
+of `C06_header_layout` applies to `d.hdr`.) -/
+theorem C06_described_block (H : Bytes → Bytes) (d : Spec.BlockD) :
     let blk := buildBlock d
     let mid := txHash H blk.miner
     serializeHashable H (encHeader blk.hdr) mid blk.hashes =
-      some (Spec.specHeader d.hdr ++ Spec.TreeHash.treeSpec H (mid :: d.txHashes) ++ Spec.leb128 (d.txHashes.length + 1)) ∧
+      (if d.txHashes.length + 1 ≤ 2^28 then
+        some (Spec.specHeader d.hdr ++ Spec.TreeHash.treeSpec H (mid :: d.txHashes) ++ Spec.leb128 (d.txHashes.length + 1))
+       else none) ∧
     blockId H Gen.correctId202612 Gen.existingId202612 (encHeader blk.hdr) mid blk.hashes =
-      some (Spec.TreeHash.blockSpec H (Spec.specHeader d.hdr) mid d.txHashes).2.2 := by
+      (if d.txHashes.length + 1 ≤ 2^28 then some (Spec.TreeHash.blockSpec H (Spec.specHeader d.hdr) mid d.txHashes).2.2 else none) := by
   intro blk mid
   have e : encHeader blk.hdr = Spec.specHeader d.hdr := encHeader_eq_specHeader d.hdr
   have hh : blk.hashes = d.txHashes := rfl
   rw [e, hh]
-  exact ⟨by rw [(C06_blob H _ mid d.txHashes hmax).2]; rfl, C06_id_gen H _ mid d.txHashes hmax⟩
+  by_cases hmax : d.txHashes.length + 1 ≤ 2^28
+  · rw [if_pos hmax, if_pos hmax]
+    exact ⟨by rw [(C06_blob H _ mid d.txHashes hmax).2]; rfl, C06_id_gen H _ mid d.txHashes hmax⟩
+  · rw [if_neg hmax, if_neg hmax]
+    have hp := C06_block_panics H Gen.correctId202612 Gen.existingId202612 (Spec.specHeader d.hdr) mid d.txHashes (by omega)
+    exact ⟨hp.2.1, hp.2.2⟩
 
-/-- the hypothesis of `C06_tree_panics` / `C06_block_panics` is satisfiable (only by huge lists) -/
+/-- the hypothesis of `C06_tree_panics` / `C06_block_panics` (= the `else` arm of `C06_every_block` / `C06_described_block`) is
+satisfiable (only by huge lists) -/
 example : (2:Nat)^28 < (List.replicate (2^28) ([] : Bytes)).length + 1 := by
   rw [List.length_replicate]; omega
 
-/-- the hypothesis of `C06_parsed_block` is satisfiable: a 110-byte block (header 1/0/0, prev_id 07…07, nonce 0x04030201, a
-version-1 miner transaction without inputs and outputs, one listed hash 09…09) parses completely in the model -/
-example : ∃ blk, block ([1, 0, 0] ++ List.replicate 32 7 ++ [1, 2, 3, 4] ++ [1, 0, 0, 0, 0] ++ [1] ++ List.replicate 32 9)
-    = some (blk, []) ∧ blk.hashes = [List.replicate 32 9] ∧ blk.hdr.nonce = 0x04030201 := by
-  have h : ((block ([1, 0, 0] ++ List.replicate 32 7 ++ [1, 2, 3, 4] ++ [1, 0, 0, 0, 0] ++ [1] ++ List.replicate 32 9)).map
-      (fun p => (p.1.hashes, p.1.hdr.nonce, p.2))) = some ([List.replicate 32 9], 0x04030201, []) := by decide +kernel
-  cases hb : block ([1, 0, 0] ++ List.replicate 32 7 ++ [1, 2, 3, 4] ++ [1, 0, 0, 0, 0] ++ [1] ++ List.replicate 32 9) with
+/-- the hypothesis of `C06_parsed_block` is satisfiable: a 109-byte block (3 header varints 1/0/0, 32 bytes prev_id 07…07, 4 bytes nonce
+0x04030201, a 5-byte version-1 miner transaction without inputs and outputs, count 2, two listed hashes 09…09 and 0a…0a) parses
+completely in the model; with the miner transaction that makes THREE leaves, so `tree_hash` takes its general arm (`treeHashMany`) -/
+example : ∃ blk, block ([1, 0, 0] ++ List.replicate 32 7 ++ [1, 2, 3, 4] ++ [1, 0, 0, 0, 0] ++ [2] ++ List.replicate 32 9 ++ List.replicate 32 10)
+    = some (blk, []) ∧ blk.hashes = [List.replicate 32 9, List.replicate 32 10] ∧ blk.hashes.length = 2 ∧ blk.hdr.nonce = 0x04030201 ∧
+    blk.hdr.prev = List.replicate 32 7 := by
+  have h : ((block ([1, 0, 0] ++ List.replicate 32 7 ++ [1, 2, 3, 4] ++ [1, 0, 0, 0, 0] ++ [2] ++ List.replicate 32 9 ++ List.replicate 32 10)).map
+      (fun p => (p.1.hashes, p.1.hdr.nonce, p.1.hdr.prev, p.2))) =
+      some ([List.replicate 32 9, List.replicate 32 10], 0x04030201, List.replicate 32 7, []) := by decide +kernel
+  cases hb : block ([1, 0, 0] ++ List.replicate 32 7 ++ [1, 2, 3, 4] ++ [1, 0, 0, 0, 0] ++ [2] ++ List.replicate 32 9 ++ List.replicate 32 10) with
   | none => rw [hb] at h; cases h
   | some p =>
     rw [hb] at h
     simp only [Option.map_some, Option.some.injEq, Prod.mk.injEq] at h
-    exact ⟨p.1, by rw [← h.2.2], h.1, h.2.1⟩
+    exact ⟨p.1, by rw [← h.2.2.2], h.1, by rw [h.1]; rfl, h.2.1, h.2.2.1⟩
 
-/-- the hypothesis of `C06_described_block`: any description with few hashes, e.g. none -/
+/-- the length of that literal -/
+example : ([1, 0, 0] ++ List.replicate 32 7 ++ [1, 2, 3, 4] ++ [1, 0, 0, 0, 0] ++ [2] ++ List.replicate 32 9 ++ List.replicate 32 10 : Bytes).length
+    = 109 := by decide
+
+/-- both arms of `C06_every_block` / `C06_described_block` occur: a description with few hashes (e.g. none) is in the `then` arm … -/
 example (d : Spec.BlockD) (h : d.txHashes = []) : d.txHashes.length + 1 ≤ 2^28 := by rw [h]; decide
+/-- … and one listing `2^28` hashes is in the `else` arm -/
+example (d : Spec.BlockD) (h : d.txHashes = List.replicate (2^28) []) : ¬ d.txHashes.length + 1 ≤ 2^28 := by
+  rw [h, List.length_replicate]; omega
 
-/-- the hypothesis of `C06_spec_wf` on a concrete list (5 leaves: `m = 2`, `cnt = 4`, `keep = 3`, one pair) -/
-example : Spec.TreeHash.levelBelow 5 = 2 ∧ 2 * 2 ^ 2 - 5 = 3 ∧
-    Spec.TreeHash.treeSpec (fun b => b.take 1) [[1], [2], [3], [4], [5]] = [1] := by decide
+/-- `C06_every_block` on a concrete value with the shape-revealing `P`, a header whose `prev_id` is the COMPUTED identifier of block
+202612 (no substitution applies to a header field: the blob contains the 32 bytes verbatim at offset 3), one listed hash: the blob is
+`header ‖ (mid listed) ‖ 02` -/
+example : ∀ (t : Tx),
+    serializeHashable P (encHeader ⟨1, 0, 0, Spec.TreeHash.computedId202612, 0x04030201⟩) (txHash P t) [[9]] =
+      some ([1, 0, 0] ++ Spec.TreeHash.computedId202612 ++ [1, 2, 3, 4] ++ P (txHash P t ++ [9]) ++ [2]) := by
+  intro t
+  have h := (C06_every_block P ⟨⟨1, 0, 0, Spec.TreeHash.computedId202612, 0x04030201⟩, t, [[9]]⟩).2.2.1
+  have hl : ([[9]] : List Bytes).length + 1 ≤ 2^28 := by decide
+  rw [if_pos hl] at h
+  have e1 : Spec.specHeader ⟨1, 0, 0, Spec.TreeHash.computedId202612, 0x04030201⟩ =
+      [1, 0, 0] ++ Spec.TreeHash.computedId202612 ++ [1, 2, 3, 4] := by decide +kernel
+  have e2 : Spec.leb128 2 = [2] := by decide +kernel
+  rw [← e1, ← e2]
+  exact h
 
 end C06
